@@ -13,10 +13,12 @@ ACL_BODIES = {
     "ios": {"A1": ("extended", ["10 permit tcp host 10.0.0.1 any eq 80", "remark r one", "deny ip any any log"]),
             "B2": ("extended", ["permit ip object-group G1 any", "permit udp any object-group G2 eq 53"]),
             "S1": ("standard", ["permit 10.0.0.0 0.0.0.255", "deny any"]),
-            "C-3": ("extended", ["permit icmp any any"])},
+            "C-3": ("extended", ["permit icmp any any"]),
+            "D4": ("extended", ["permit ip object-group G1 object-group G1", "deny tcp object-group G2 object-group G1 eq 22", "permit ip object-group G1 object-group G2"])},
     "nxos": {"A1": ("extended", ["10 permit tcp 10.0.0.1/32 any eq 80", "20 remark r one", "30 deny ip any any log"]),
              "B2": ("extended", ["permit ip addrgroup G1 any", "permit udp any addrgroup G2 eq 53"]),
-             "C-3": ("extended", ["permit icmp any any"])},
+             "C-3": ("extended", ["permit icmp any any"]),
+             "D4": ("extended", ["permit ip addrgroup G1 addrgroup G1", "deny tcp addrgroup G2 addrgroup G1 eq 22", "permit ip addrgroup G1 addrgroup G2"])},
 }
 GROUP_BODIES = {
     "ios": {"G1": ["host 10.0.0.1", "10.0.0.0 255.255.255.0"], "G2": ["10.1.0.0 255.255.0.0", "description members of G2"]},
